@@ -10,7 +10,28 @@ def H(name, bounds="", reach=(), native=True, thorough_only=False, quick=None, t
 Q = {"budget": "150s", "timeout": 400}
 T = {"budget": "25m", "timeout": 3000}
 
+TSTATE_BOUNDS = "one checkOnce from a fresh T; property = any program of k<=3 (quick) / 4 (thorough) opcodes over {return, draw, Errorf, Fail, Fatalf, FailNow, panic(string), panic(error), nil dereference, Skip, Cleanup(sub), Context, Custom(sub)} with a 2-opcode sub-program for callbacks; buffer stream of 4 symbolic words"
+TSTATE_REACH = ["passed", "signalled", "skipped", "overrun"]
+ENGINE_ASSUME = ["sync.RWMutex/Mutex/Once, atomic.Bool/Value modelled as sequential state machines that report misuse (deadlock, unlock of unlocked)",
+                 "runtime.Callers/CallersFrames modelled by the executor's own call stack with Go's run-time function naming",
+                 "fmt/log/strings formatting executed natively on concrete arguments"]
+
 PROPS = {
+    "C02": {
+        "level": "model_checking",
+        "harnesses": [H("H_C02_checkOnce", TSTATE_BOUNDS, reach=TSTATE_REACH, quick=Q, thorough=T)],
+        "assumptions": ENGINE_ASSUME,
+    },
+    "C10": {
+        "level": "model_checking",
+        "harnesses": [H("H_C10_checkOnce", TSTATE_BOUNDS, reach=TSTATE_REACH, quick=Q, thorough=T)],
+        "assumptions": ENGINE_ASSUME,
+    },
+    "C11": {
+        "level": "model_checking",
+        "harnesses": [H("H_C11_checkOnce", TSTATE_BOUNDS, reach=TSTATE_REACH, quick=Q, thorough=T)],
+        "assumptions": ENGINE_ASSUME,
+    },
     "C03": {
         "level": "model_checking",
         "harnesses": [
